@@ -6,3 +6,5 @@ from . import val  # noqa: F401
 from . import iterfog  # noqa: F401
 from . import binary  # noqa: F401
 from . import smt  # noqa: F401
+from . import enc  # noqa: F401
+from . import hexary  # noqa: F401
